@@ -19,6 +19,7 @@ import math
 import os
 import random
 import re
+import select
 import subprocess
 import sys
 import time
@@ -42,6 +43,7 @@ KNOWN_FILE = ROOT / "known_findings.json"
 STD_AXIOMS = {"propext", "Classical.choice", "Quot.sound"}
 FORBIDDEN = re.compile(r"\b(sorry|admit|native_decide|bv_decide|implemented_by)\b|^\s*axiom\s|\bunsafe\s|maxHeartbeats\s+0\b")
 TOL = Fraction(1, 2 ** 40)
+DRIVER_TIMEOUT = float(os.environ.get("VERIF_DRIVER_TIMEOUT", "240"))
 
 
 class Infra(Exception):
@@ -190,6 +192,12 @@ class Driver:
         try:
             self.p.stdin.write(line + "\n")
             self.p.stdin.flush()
+            # one answer line per request: nothing is buffered on our side before the request, so the descriptor can be
+            # polled; a driver that does not answer in time is an infrastructure problem (exit 2), never a hang
+            ready, _, _ = select.select([self.p.stdout], [], [], DRIVER_TIMEOUT)
+            if not ready:
+                self.p.kill()
+                raise Infra(f"Lean driver {self.name} did not answer within {DRIVER_TIMEOUT}s on request {line[:300]!r}")
             out = self.p.stdout.readline()
         except BrokenPipeError:
             out = ""
